@@ -144,11 +144,13 @@ def run(chk, replay_rec):
             if g["k"] == 1:
                 first[g["what"]] = g["live"]
         for g in gor:
-            g["first"] = first[g["what"]]
+            g["first"] = first.get(g["what"], g["live"])
         badg = chk.validate("FaultTrace", gor, chunks=1, timeout=900)
         chk.traces += len(gor)
         for e, why in badg:
-            chk.violation("goroutines:%s" % e["what"],
+            chk.violation("goroutines:%s:%s" % (e["what"], why),
+                          ("render %d of the history %s did not return: a goroutine is blocked in the library" % (e["k"], e["what"]))
+                          if e.get("hung") else
                           "goroutines alive after %d x %s: %d (after the first: %d, before: %d, NumCPU %d)" % (
                               e["k"], e["what"], e["live"], e["first"], e["base"], e["numcpu"]), dict(kind="goroutines", what=e["what"]))
     allobs = obs + gor
